@@ -439,6 +439,9 @@ func (l *linForm) addTerm(t *Term, c *big.Int) {
 }
 
 func (l *linForm) build() *Term {
+	if len(l.coef) == 0 {
+		return BigLit(l.k)
+	}
 	ids := make([]int, 0, len(l.coef))
 	for id := range l.coef {
 		ids = append(ids, id)
